@@ -10,6 +10,9 @@
      rd(pl)    print pl                     wr(pl)    pl = <fresh value>
      tm(pl)    mutI(&'pl)   temporary mutable borrow for the duration of a call (a write of pl)
      ts(pl)    readI(&pl)   temporary shared borrow (a read of pl)
+     cdef(pl)  let f := fn() -> i32 { return pl; };   creating the function literal accesses nothing; the literal sees
+               the variable itself: the call  ccall  (print f(), appended at the end of the program) reads the value
+               the place has at that time
      open / close                            a nested block { ... }: references declared inside die at close
      loop / endloop                          a `while` body executed twice by the judgment
    The judgment is the property itself in its forward form: an access that conflicts with the loan
@@ -35,7 +38,7 @@ NoLoan == [on |-> FALSE, pl |-> "a", mut |-> FALSE, taint |-> 0, depth |-> 0, vi
    different ways apart in the explored state graph so that each way gets its own programs *)
 InitVal == [pl \in Places |-> CASE pl = "a" -> 1 [] pl = "p.X" -> 2 [] pl = "p.Y" -> 3 [] pl = "arr[0]" -> 5
                                    [] OTHER -> 6]
-S0 == [loan |-> [r \in Refs |-> NoLoan], val |-> InitVal, out |-> <<>>, bad |-> 0, depth |-> 0, n |-> 0]
+S0 == [loan |-> [r \in Refs |-> NoLoan], val |-> InitVal, out |-> <<>>, bad |-> 0, depth |-> 0, n |-> 0, clo |-> ""]
 
 (* taint levels / verdict levels: 0 none, 1 only by the array-element rule, 2 definite *)
 Max(x, y) == IF x >= y THEN x ELSE y
@@ -69,6 +72,9 @@ Step(s0, e) ==
       [] e.k = "wr"  -> LET s1 == Access(s, e.pl, TRUE, "") IN [s1 EXCEPT !.val[e.pl] = e.v]
       [] e.k = "tm"  -> LET s1 == Access(s, e.pl, TRUE, "") IN [s1 EXCEPT !.val[e.pl] = 5]      \* mutI stores 5
       [] e.k = "ts"  -> LET s1 == Access(s, e.pl, FALSE, "") IN [s1 EXCEPT !.out = Append(@, s.val[e.pl])]
+      [] e.k = "cdef" -> [s EXCEPT !.clo = e.pl]          \* let f := fn() -> i32 { return pl; };  creating it accesses nothing
+      [] e.k = "ccall" -> IF s.clo = "" THEN s            \* print f():  a read of the captured place, at the time of the call
+                          ELSE LET s1 == Access(s, s.clo, FALSE, "") IN [s1 EXCEPT !.out = Append(@, s.val[s.clo])]
       [] e.k = "open" -> [s EXCEPT !.depth = @ + 1]
       [] e.k = "close" -> [s EXCEPT !.depth = @ - 1,
                                     !.loan = [r \in Refs |-> IF s.loan[r].on /\ s.loan[r].depth = s.depth
@@ -108,6 +114,7 @@ Events(es) ==
         \cup {[k |-> "rd", pl |-> pl] : pl \in Places}
         \cup {[k |-> "wr", pl |-> pl, v |-> 10 * (Len(es) + 1)] : pl \in Places}
         \cup {[k |-> t, pl |-> pl] : t \in tempKinds, pl \in Places}
+        \cup (IF UseCalls /\ OpenBlocks(es) = 0 /\ ~InLoop(es) /\ s.clo = "" THEN {[k |-> "cdef", pl |-> pl] : pl \in {"a", "p.X"}} ELSE {})
         \cup (IF UseBlocks /\ OpenBlocks(es) = 0 /\ ~InLoop(es) THEN {[k |-> "open"]} ELSE {})
         \cup (IF UseBlocks /\ OpenBlocks(es) = 1 /\ ~InLoop(es) THEN {[k |-> "close"]} ELSE {})
         \cup (IF UseLoops /\ OpenBlocks(es) = 0 /\ ~InLoop(es) THEN {[k |-> "loop"]} ELSE {})
@@ -124,7 +131,7 @@ Next == /\ Len(hist) < MaxLen
 Spec == Init /\ [][Next]_hist
 
 (* the abstract state that decides everything that can still happen *)
-Abs(es) == LET s == RunFrom(S0, es, 1) IN <<s.loan, s.bad, OpenBlocks(es), InLoop(es),
+Abs(es) == LET s == RunFrom(S0, es, 1) IN <<s.loan, s.bad, s.clo, OpenBlocks(es), InLoop(es),
                                             IF InLoop(es) THEN es ELSE <<>>, {r \in Refs : EverDeclared(es, r)}>>
 View == Abs(hist)
 
@@ -134,7 +141,9 @@ RECURSIVE SetToSeq(_)
 SetToSeq(X) == IF X = {} THEN <<>> ELSE LET x == CHOOSE y \in X : TRUE IN <<x>> \o SetToSeq(X \ {x})
 Epilogue(es) == LET s == Run(es) live == SetToSeq({r \in Refs : s.loan[r].on})
                 IN [i \in 1 .. Len(live) |-> [k |-> "use", r |-> live[i]]]
-CaseOf(es) == [events |-> es, verdict |-> Verdict(es), out |-> Run(es).out]
+(* a function literal created by the program is called once at its very end *)
+WithCall(es) == IF \E i \in 1 .. Len(es) : es[i].k = "cdef" THEN Append(es, [k |-> "ccall"]) ELSE es
+CaseOf(es0) == LET es == WithCall(es0) IN [events |-> es, verdict |-> Verdict(es), out |-> Run(es).out]
 EmitAC == IF Complete(hist')
           THEN /\ PrintT("@@CASE " \o ToJson(CaseOf(hist')))
                /\ (Epilogue(hist') = <<>> \/ PrintT("@@CASE " \o ToJson(CaseOf(hist' \o Epilogue(hist')))))
